@@ -79,6 +79,40 @@ def relations(run, specs, origin):
                        "signature": {"kind": "moment-shift"}})
 
 
+def long_list_case(run, la=4, lb=4, nprim=4):
+    """a long list of order triples for large shells in one call (all 125 triples, two g shells with 4 primitives: more than 10^6
+    intermediate numbers per shell pair) must give, slice by slice, what separate calls give; sampled slices are also compared with
+    the model"""
+    from gbasis.integrals.moment import moment_integral
+    rng = run.rng
+    cs = []
+    specs = [rand_shell(rng, la, cs, nprim=nprim, nseg=1, sph=False, exp_hi=8.0).copy(via_update=False),
+             rand_shell(rng, lb, cs, nprim=nprim, nseg=1, sph=False, exp_hi=8.0).copy(via_update=False)]
+    if specs[0].center == specs[1].center:
+        specs[1] = specs[1].copy(center=[c + d for c, d in zip(specs[1].center, (0.9, -0.4, 0.6))])
+    basis = make_basis(specs)
+    origin = np.array([0.3, -0.2, 0.45])
+    triples = list(itertools.product(range(5), repeat=3))
+    rng.shuffle(triples)
+    whole = moment_integral(basis, origin, np.array(triples))
+    run.case(("long-list", la, lb, nprim) + sig(specs))
+    run.count("long order list for large shells (%d triples)" % len(triples))
+    rep = {"case": "long-list", "basis": core.describe_basis(specs), "origin": origin.tolist(), "signature": {"kind": "moment-long-list"}}
+    if whole.shape != (sum(s_.size for s_ in specs),) * 2 + (len(triples),):
+        run.violation(f"moment_integral returned shape {whole.shape} for {len(triples)} order triples", rep)
+        return False
+    picks = [0, 1, len(triples) // 2, len(triples) - 2, len(triples) - 1] + rng.sample(range(len(triples)), 5)
+    for i in picks:
+        single = moment_integral(basis, origin, np.array([triples[i]]))[:, :, 0]
+        scale = float(np.abs(single).max())
+        if np.abs(whole[:, :, i] - single).max() > 1e-12 * scale + 1e-300:
+            run.violation(f"slice {i} (order {triples[i]}) of a {len(triples)}-triple request differs from the result of requesting that "
+                          f"triple alone by {np.abs(whole[:, :, i] - single).max():.3e}", dict(rep, position=i, order=list(triples[i])))
+            return False
+    ok, _ = one_case(run, specs, origin, [triples[i] for i in picks[:3]], None, "off")
+    return ok
+
+
 def representation_cases(run):
     from gbasis.integrals.moment import moment_integral
     rng = run.rng
@@ -176,10 +210,20 @@ def check(run):
             specs = pair_specs(rng, la, lb)
             one_case(run, specs, [0.25, -0.5, 0.125], [rng.choice(triples) for _ in range(3)], None, "off")
     representation_cases(run)
+    long_list_case(run)
+    if run.tier != "quick":
+        long_list_case(run, 5, 3, 4)
+    from checks.common import structural_families
+    for lab, specs, T in structural_families(run):
+        one_case(run, specs, [0.3, -0.1, 0.2], [(1, 0, 0), (0, 2, 1), (0, 0, 0), (3, 0, 1)], T, "off")
+        run.count(lab)
 
 
 def replay(run, rep):
     n0 = len(run.violations)
+    if rep.get("case") == "long-list":
+        long_list_case(run)
+        return len(run.violations) == n0
     if rep.get("case") == "representation":
         representation_cases(run)
         return len(run.violations) == n0
